@@ -15,6 +15,26 @@ from .common import Ctx, plumbing
 MOD = "_decoding"
 
 
+def _is_oov_mask(v) -> bool:
+    """(hyp < 0) | (hyp >= <name>), in either operand order and either comparison spelling."""
+    from sa.astutil import oriented
+    if not (isinstance(v, ast.BinOp) and isinstance(v.op, ast.BitOr)):
+        return False
+    kinds = set()
+    for side in (v.left, v.right):
+        o = oriented(side, lambda e: u(e) == "hyp")
+        if o is None:
+            return False
+        op, _, b = o
+        if op == "lt" and u(b) == "0":
+            kinds.add("negative")
+        elif op == "ge" and isinstance(b, ast.Name):
+            kinds.add("beyond")
+        else:
+            return False
+    return kinds == {"negative", "beyond"}
+
+
 def _kernel_fingerprint(f):
     """Order of the masking steps of a sequence-log-prob kernel, with locals abstracted by role."""
     rd = ReachingDefs(f.node)
@@ -24,7 +44,7 @@ def _kernel_fingerprint(f):
         v = n.value
         s = u(v)
         t = u(n.targets[0])
-        if re.fullmatch(r"hyp\.lt\(0\) \| hyp\.ge\((\w+)\)", s):
+        if _is_oov_mask(v):
             steps.append("oov-mask=(hyp<0)|(hyp>=num_classes)")
             mask_names.add(t)
         elif isinstance(v, ast.Call) and call_name(v).endswith("log_softmax") and "-1" in s:
@@ -112,8 +132,11 @@ def run(ctx: Ctx):
     # eos handling of the padded kernel: length to the first eos, plus one (eos included)
     lens = [n for n in own_nodes(kt.node) if isinstance(n, ast.Assign) and isinstance(n.value, ast.BinOp) and "_lens_from_eos" in u(n.value)]
     okl = len(lens) == 1 and u(lens[0].value) == "_lens_from_eos(hyp, eos, dim) + 1"
-    lm = [n for n in own_nodes(kt.node) if isinstance(n, ast.Assign) and isinstance(n.value, ast.Compare) and isinstance(n.value.ops[0], (ast.GtE, ast.Gt))]
-    okm = len(lm) == 1 and isinstance(lm[0].value.ops[0], ast.GtE) and lens and u(lm[0].value.comparators[0]) == u(lens[0].targets[0])
+    from sa.astutil import oriented
+    ltgt = u(lens[0].targets[0]) if lens else None
+    lm = [n for n in own_nodes(kt.node) if isinstance(n, ast.Assign) and oriented(n.value, lambda e: u(e) == ltgt)]
+    # position >= length  <=>  length <= position
+    okm = len(lm) == 1 and oriented(lm[0].value, lambda e: u(e) == ltgt)[0] == "le"
     # def-use versions: the first eos and the out-of-vocabulary test are computed on the tokens as given; only the
     # gather index is the zeroed copy (zeroing first would turn out-of-vocabulary tokens into class 0 - an eos when
     # eos == 0 - and truncate the sequence there)
